@@ -18,7 +18,9 @@ RULE = ("Hypothesis RuleBasedStateMachine: a pool of 2+2 tables, a candidate set
         "every step: pooled frames equal their pristine copies, every tokenizer's configuration "
         "(and the module default's) is unchanged, the step's result equals the same call on "
         "fresh objects. Non-trivial history = >=3 calls share one tokenizer and >=1 of them had "
-        "to flip its mode; distinct = digests of histories")
+        "to flip its mode. 'interference': every ordered pair (A, B) of configurations per entry "
+        "point is run A-then-B and B is compared with B on a fresh library instance; distinct = "
+        "digests of histories / cases")
 ASSUMPTIONS = ["a history is replayed from its JSON record by the same step interpreter"]
 
 TOK_POOL = [{"kind": "ws", "return_set": True}, {"kind": "ws", "return_set": False},
@@ -389,4 +391,97 @@ class Stateful(Component):
     check = run_history
 
 
-COMPONENTS = [Stateful()]
+def _interference_configs():
+    ed = [("EDIT_DISTANCE", q, pad, t) for q in (1, 2, 3) for pad in (True, False)
+          for t in (1, 2, 3)]
+    sets = [(m, None, None, t) for m in ("JACCARD", "COSINE", "DICE") for t in (0.3, 0.5, 0.8)]
+    return ed, sets
+
+
+class Interference(Component):
+    """Systematic pairwise interference: call A then call B (same entry point, different
+    tokenizer configuration / threshold / measure) in this process and compare B's result with
+    B on a freshly imported library instance.  Data: all strings over {a,b} up to length 5
+    (edit distance) and the dense all-subsets tables (set measures), so that every size and
+    prefix length occurs.  Targets caches keyed by an incomplete set of parameters."""
+    name = "interference"
+    kind = "enum"
+    exhaustive = True
+    rule = "every ordered pair (A, B) of configurations per entry-point family"
+
+    def bounds(self, tier):
+        ed, sets = _interference_configs()
+        return {"edit_distance_configs": len(ed), "set_configs": len(sets),
+                "entries": ["join", "PrefixFilter", "PositionFilter"]}
+
+    def shards(self, tier):
+        return 16
+
+    def budget_s(self, tier):
+        return 240 if tier == "quick" else 2400
+
+    def cases(self, tier):
+        ed, sets = _interference_configs()
+        for fam, cfgs in (("ed", ed), ("set", sets)):
+            for entry in ("join", "prefix", "position"):
+                for a in cfgs:
+                    yield {"family": fam, "entry": entry, "first": list(a),
+                           "then": [list(b) for b in cfgs if b != a]}
+
+    @staticmethod
+    def data(fam):
+        from . import c02, c03
+        if fam == "ed":
+            strs, T = c03.e3_table("ab", 5)
+            return T, T, "id", "v"
+        subsets = c02.dense_rows(8, 2)
+        names = [chr(ord("a") + i) for i in range(8)]
+        vals = [" ".join([names[i] for i in c] + ["zhub"]) for c in subsets]
+        T = pd.DataFrame({"id": list(range(len(vals))), "v": pd.Series(vals, dtype=object)})
+        return T, T, "id", "v"
+
+    @staticmethod
+    def call(ctx, api, entry, cfg, L, R):
+        m, q, pad, t = cfg
+        if m == "EDIT_DISTANCE":
+            tok = mk_tok({"kind": "qgram", "q": q, "padding": pad, "return_set": False})
+        else:
+            tok = mk_tok({"kind": "ws", "return_set": True})
+        if entry == "join":
+            if m == "EDIT_DISTANCE":
+                return ctx.lib(api.edit_distance_join, L, R, "id", "id", "v", "v", t, "<=", False,
+                               None, None, "l_", "r_", True, 1, False, tok)
+            fn = getattr(api, JOIN_NAMES[m])
+            return ctx.lib(fn, L, R, "id", "id", "v", "v", tok, t, ">=", True, False, None, None,
+                           "l_", "r_", True, 1, False)
+        cls = api.PrefixFilter if entry == "prefix" else api.PositionFilter
+        f = ctx.lib(cls, tok, m, t)
+        if f is None:
+            return None
+        return ctx.lib(f.filter_tables, L, R, "id", "id", "v", "v", show_progress=False)
+
+    def check(self, case, ctx):
+        L, R, _, _ = self.data(case["family"])
+        first = tuple(case["first"])
+        for b in case["then"]:
+            b = tuple(b)
+            self.call(ctx, ssj, case["entry"], first, L, R)
+            got = self.call(ctx, ssj, case["entry"], b, L, R)
+            with FreshLibrary().active() as fresh:
+                want = self.call(ctx, fresh, case["entry"], b, L, R)
+            if got is None or want is None:
+                continue
+            g = collections.Counter(canon.rows_of(got.iloc[:, 1:]))
+            w = collections.Counter(canon.rows_of(want.iloc[:, 1:]))
+            if g != w:
+                ctx.violation("kind=result-depends-on-history,call=%s" % case["entry"],
+                              "%s with configuration %r gives a different result after a call "
+                              "with configuration %r than on a fresh library: only after history "
+                              "%r, only fresh %r" % (case["entry"], b, first,
+                                                     list((g - w).items())[:3],
+                                                     list((w - g).items())[:3]))
+        ctx.nontrivial(True)
+        ctx.label("interference:%s:%s" % (case["family"], case["entry"]))
+
+
+COMPONENTS = [Stateful(), Interference()]
